@@ -49,9 +49,10 @@ type trTask struct {
 }
 
 type trStage struct {
-	Task  int   `json:"task"`
-	Deps  []int `json:"deps"`
-	Allow bool  `json:"allow"`
+	Task  int    `json:"task"`
+	Deps  []int  `json:"deps"`
+	Allow bool   `json:"allow"`
+	Cond  string `json:"cond"` // stage condition: an executable path ("" = none)
 }
 
 // a plan step: {"op":"run","tasks":[i]} sequential run; {"op":"par","tasks":[i,j]} simultaneous runs;
@@ -95,6 +96,8 @@ type trObs struct {
 	PipeErr   []bool     `json:"pipe_err,omitempty"`
 	PipeFin   [][]int    `json:"pipe_fin,omitempty"`
 	CancelMs  []int64    `json:"cancel_ms,omitempty"` // how long each Cancel() call took
+	CancelNs  []int64    `json:"cancel_done_ns,omitempty"` // wall clock (UnixNano) at which each Cancel() call returned
+	CancelCalls int      `json:"cancel_calls"`
 	Hung      bool       `json:"hung"`
 	WallMs    int64      `json:"wall_ms"`
 	SetupErr  string     `json:"setup_err,omitempty"`
@@ -239,7 +242,7 @@ func taskrunEngine(raw json.RawMessage) (res interface{}, err error) {
 					for _, d := range s.Deps {
 						deps = append(deps, fmt.Sprintf("s%d", d))
 					}
-					stages = append(stages, &scheduler.Stage{Name: fmt.Sprintf("s%d", k), Task: tasks[s.Task], DependsOn: deps, AllowFailure: s.Allow})
+					stages = append(stages, &scheduler.Stage{Name: fmt.Sprintf("s%d", k), Task: tasks[s.Task], DependsOn: deps, AllowFailure: s.Allow, Condition: s.Cond})
 				}
 				g, e := scheduler.NewExecutionGraph(stages...)
 				if e != nil {
@@ -268,6 +271,9 @@ func taskrunEngine(raw json.RawMessage) (res interface{}, err error) {
 				tr.Finish()
 			case "cancel":
 				cancelWg.Add(1)
+				mu.Lock()
+				obs.CancelCalls++
+				mu.Unlock()
 				go func(ms int) {
 					defer cancelWg.Done()
 					time.Sleep(time.Duration(ms) * time.Millisecond)
@@ -275,14 +281,21 @@ func taskrunEngine(raw json.RawMessage) (res interface{}, err error) {
 					tr.Cancel()
 					mu.Lock()
 					obs.CancelMs = append(obs.CancelMs, time.Since(t0).Milliseconds())
+					obs.CancelNs = append(obs.CancelNs, time.Now().UnixNano())
 					mu.Unlock()
 				}(st.AfterMs)
 			case "cancel_sync":
+				mu.Lock()
+				obs.CancelCalls++
+				mu.Unlock()
 				t0 := time.Now()
 				tr.Cancel()
 				mu.Lock()
 				obs.CancelMs = append(obs.CancelMs, time.Since(t0).Milliseconds())
+				obs.CancelNs = append(obs.CancelNs, time.Now().UnixNano())
 				mu.Unlock()
+			case "sleep":
+				time.Sleep(time.Duration(st.AfterMs) * time.Millisecond)
 			}
 		}
 		cancelWg.Wait()
